@@ -90,14 +90,14 @@ CLAIMS['C17'] = dict(
     technique='sanitiser-coverage dataflow on path components plus table extraction of the sanitiser itself; who-may-join',
     text='Structural claim in two parts. Coverage: every component the four lookup functions join with "/" is lookup_leafname(..)? of the module\'s code/debug file, that leaf with a replaced extension, or identifier text (DebugId/CodeId), '
          'and consumers join only FileLookup.cache_rel/server_rel or the code-info lookup result onto cache, symbol directories and server URLs. Adequacy: lookup_leafname is leafname() with the leaves "", "." and ".." rejected (its string tests are extracted from MIR) '
-         'and leafname takes the last piece after both separator styles, so no component is empty, `.` or `..` and none contains a separator. The traversal defect this exposed was repaired in /repo. Not decided: drive-prefix leaves like `C:x` on Windows.',
+         'and leafname takes the last piece after both separator styles, so no component is empty, `.` or `..` and none contains a separator. The traversal defect this exposed was repaired in /repo. Server URLs (C17.3, after the repair dd0f968): request URLs are built only by http::server_url, which appends server_rel.split(\'/\') through path_segments_mut().extend (each segment percent-encoded, so `http:host`, `%2e%2e`, `a?b` stay literal), refuses names with tab / newline / CR (the URL parser drops those), and nothing else in the crate parses text as URL syntax; every Client::get takes a URL that came out of server_url. Drive prefixes (C17.2, after the repair 65f0aa4): lookup_leafname strips `<letter>:` in a loop that is left only when the leaf has no such prefix.',
     note='Trusted: debugid (hex identifiers), std::path join semantics, rustc MIR. The claim is about the code shape for all module names; no path is ever built or joined at check time.',
     ref='DESIGN.md §3 C17')
 CLAIMS['C19'] = dict(
     technique='value-shape dataflow (address ^ (1 << i) over constant ranges), gating dominance, constant folding of the confidence table',
     text='Structural clauses of C19 decided for all inputs: each pushed candidate is address ^ (1 << i) with i the induction variable of the loop over BitRange::range(), whose three ranges are the constants 0..64, 0..48, 48..64, selected by adjusted-address kind and CPU; '
          'each push is control-dependent on candidate == 0 or (memory_info_at_address(candidate) is Some and is_possibly_allowed_for); attempts are gated on 64-bit, non-ARM64, not null-pointer-with-offset, and try_bit_flips returns before the loop when the examined address is accessible; '
-         'confidence constants (incl. the NEARBY_REGISTER table, constant-folded) lie in [0,1], combine is 1 - prod(1 - v) and all other arithmetic is a product with such a constant. That memory_info_at_address is right is C08 behaviour, not decided.',
+         'confidence constants (incl. the NEARBY_REGISTER table, constant-folded) lie in [0,1], combine is 1 - prod(1 - v) and all other arithmetic is a product with such a constant. That memory_info_at_address is right is C08 behaviour, not decided. C19.5: the MemoryOperation permission table and its derivation from the crash reason are extracted arm by arm. C19.6: every try_bit_flips call is handed self.memory_info, the selected bit range and MemoryOperation::from_crash_reason(&info.reason), and inside (also through a local predicate closure) memory_info_at_address / is_possibly_allowed_for are asked of exactly those parameters.',
     note='Trusted: rustc MIR, f32 monotonicity of products and 1 - x on [0,1].',
     ref='DESIGN.md §3 C19')
 
@@ -106,7 +106,7 @@ CLAIMS['C06'] = dict(
     text='Narrow claim: the structural clauses of the documented STACK CFI semantics, for every rule program. The operator table of eval_cfi_expr is extracted and compared with the documentation (which wrapping operation, lhs/rhs order with rhs popped first, '
          '/ % fail on zero, @ fails unless rhs is a non-zero power of two and computes lhs & !(rhs-1), ^ goes through the walker with ?, .cfa pushes cfa?, .undef fails, result needs exactly one value); the evaluator has no non-wrapping arithmetic and no undischarged panic edge; '
          'the CFA is evaluated first with cfa = None and feeds set_cfa, .cfa and .ra are mandatory, every other rule either sets or clears its register, and walk_frame applies only delta records at or below the address, in address order. '
-         'It does not compute results: agreement with a reference interpreter over a program space is behavioural and not decided.',
+         'It does not compute results: agreement with a reference interpreter over a program space is behavioural and not decided. C06.7/C06.9: the rule map is written only by an unconditional insert in parse_cfi_exprs and only .cfa/.ra are removed; a register label becomes the map key without one leading `$`, so `$rax:` and `rax:` are one rule. C06.8: the walker callbacks the evaluator runs against answer from the callee context under its validity set.',
     note='Trusted: rustc MIR, u64::wrapping_* semantics, BTreeMap insertion order semantics for overriding rules.',
     ref='DESIGN.md §3 C06')
 CLAIMS['C07'] = dict(
@@ -114,7 +114,7 @@ CLAIMS['C07'] = dict(
     text='Narrow claim: structural clauses of the STACK WIN semantics. The operator table of eval_win_expr (same rules as C06 on u32 plus `=` and `.undef`), the six predefined constants and their sources, the `@` search-start rule, '
          'the output alphabet (only eip esp ebp ebx esi edi reported), clearing before evaluation and framedata-before-fpo priority are extracted and checked; every register name handed to the FrameWalker interface must be a name the x86 context knows. '
          'The last rule exposes a genuine defect (names are cleared with a `$` prefix, so nothing is cleared and callee registers are forwarded); it is a recorded known finding because the obvious repair changes two existing CLI snapshots. '
-         'Two overflow panics in this code were repaired in /repo. Numeric results are not computed. FPO formula table (C07.6): for every path to every set_caller_register call in walk_with_stack_win_fpo the reaching definitions are substituted into the value and compared, as linear address forms, with the documented $eip/$esp/$ebp/%ebx formulae incl. the leftover-return-address skip; the branch conditions must be the documented decisions.',
+         'Two overflow panics in this code were repaired in /repo. Numeric results are not computed. FPO formula table (C07.6): for every path to every set_caller_register call in walk_with_stack_win_fpo the reaching definitions are substituted into the value and compared, as linear address forms, with the documented $eip/$esp/$ebp/%ebx formulae incl. the leftover-return-address skip; the branch conditions must be the documented decisions. C07.7: the grand-callee facts the FPO skip and .cbParams rest on (CfiStackWalker.has_grand_callee = grand_callee_frame.is_some(), grand_callee_parameter_size = its parameter_size or 0, accessors return the fields) are pinned field by field.',
     note='Trusted: rustc MIR, u32::wrapping_* semantics. Table entries marked ASSUMPTION (32-bit callee registers) apply to the FPO arithmetic.',
     ref='DESIGN.md §3 C07')
 
@@ -152,7 +152,7 @@ CLAIMS['C02'] = dict(
     technique='endianness provenance dataflow on every scroll read, LE/BE twin comparison of byte-order branches, derive pairing from the impl table, insert discipline of the directory loop; who-may-call on text decoders',
     text='Narrow claim: only the byte-order and layout-pairing clauses. Every scroll read that takes an Endian context (329 call sites in minidump and minidump-common) receives an endianness data-flow-derived from a parameter or field, '
          'and Endian constants occur only in the signature probe of Minidump::read; every branch on the byte order has a Little and a Big arm that are LE/BE twins; every format.rs type read through scroll derives Pread and SizeWith from one field list '
-         '(the five hand-written readers are a reviewed list); duplicate directory entries are stored by an unconditional insert in file order, so the last one is served. Field offsets/padding against the serializer, identifier derivation and memory contents relate values to values and are NOT decided. Text decoding: only the BOM-agnostic, replacement-free encoding_rs decoders, with the UTF-16 encoding selected by the byte order (arms read from discriminant facts). The directory loop records entries only and the cached system info is read through the finished map (C02.4b).',
+         '(the five hand-written readers are a reviewed list); duplicate directory entries are stored by an unconditional insert in file order, so the last one is served. Field offsets/padding against the serializer, identifier derivation and memory contents relate values to values and are NOT decided. Text decoding: only the BOM-agnostic, replacement-free encoding_rs decoders, with the UTF-16 encoding selected by the byte order (arms read from discriminant facts). The directory loop records entries only and the cached system info is read through the finished map (C02.4b). C02.6: memory regions carry base / size / bytes straight from their descriptor (Memory64 slices consecutive). C02.7: the CPU_INFORMATION union (24 undecoded bytes) is only ever consumed as the receiver of pread_with(_, 0, endian), never byte-wise.',
     note='Trusted: scroll and its derives, rustc MIR and impl table.',
     ref='DESIGN.md §3 C02')
 CLAIMS['C15'] = dict(
